@@ -228,4 +228,56 @@ theorem addSong_read (l l' : Linker) (file : Bytes) (mds : Riff.Riff) (name : By
                 simp only [Except.ok.injEq] at h
                 exact ⟨_, a, rfl, hf, h.symm⟩
 
+/-- … and conversely: once `readSong` has accepted the file, `add_song` on ANY linker state is exactly
+the fold over the children `readSong` listed (its only remaining errors are those of the entries) -/
+theorem addSong_of_read (l : Linker) (file : Bytes) (mds : Riff.Riff) (name : Bytes) (rd : SongRead)
+    (ho : Riff.ofBytes file = .ok mds) (hr : readSong file = some rd) :
+    addSong l mds name =
+      match foldDblk rd.sdata rd.seq.length rd.pcmd rd.chunks none { bank := l.dataBank, wave := l.wave, patch := [] } with
+      | .error e => .error e
+      | .ok a => .ok { dataBank := a.bank, wave := a.wave,
+                       seqBank := seqInsert l.seqBank (groupKey rd.group) { filename := name, data := rd.seq, patch := a.patch } } := by
+  unfold readSong at hr
+  rw [ho] at hr
+  simp only at hr
+  unfold addSong
+  simp only
+  split at hr
+  · cases hr
+  · rename_i hty
+    rw [if_neg hty]
+    cases hid : Riff.getId { mds with position := Riff.rewindPos mds.type } with
+    | error e => rw [hid] at hr; cases hr
+    | ok id =>
+      rw [hid] at hr
+      simp only at hr ⊢
+      split at hr
+      · cases hr
+      · rename_i hid2
+        rw [if_neg hid2]
+        cases hw : walkTop (mds.data.length + 1) { mds with position := Riff.rewindPos mds.type } {} with
+        | error e => rw [hw] at hr; cases hr
+        | ok p =>
+          rw [hw] at hr
+          simp only at hr ⊢
+          split at hr
+          · cases hr
+          · rename_i hsz
+            rw [if_neg hsz]
+            split at hr
+            · cases hr
+            · rename_i hv
+              rw [if_neg hv]
+              rw [walkDblk_fold]
+              split at hr
+              · cases hr
+              · rename_i hnone
+                simp only [Option.some.injEq] at hr
+                subst hr
+                simp only [hnone, SongRead.sdata]
+                generalize foldDblk ((p.seq.getD 0 0).toNat * 256 + (p.seq.getD 1 0).toNat) p.seq.length p.pcmd
+                  (kids (p.dblk.data.length + 1) { type := p.dblk.type, data := p.dblk.data, position := Riff.rewindPos p.dblk.type }).1
+                  none { bank := l.dataBank, wave := l.wave, patch := [] } = r
+                cases r <;> rfl
+
 end Ctrmml.Linker
